@@ -20,6 +20,7 @@ use std::future::Future;
 //@ include prelude/http.rs
 //@ include spec/creq.rs
 //@ include spec/auth.rs
+//@ include spec/time.rs
 //@ include prelude/outline.rs
 //@ include prelude/regex.rs
 //@ include prelude/deps_auth.rs
